@@ -1,30 +1,153 @@
 # ------------------------------------------------------------------------------------------------
 # jxl-jbr: JPEG bitstream reconstruction (C17, C01) -- bit writer, Huffman code construction,
-# reconstruction-header arithmetic, scan helpers. Spec: ITU-T T.81 (Annex C, F.1.2, E.1.4, G.1.2.2).
+# reconstruction-header arithmetic, scan helpers. All stub models live in the bit_writer.rs harness module: it is
+# the canary's module and therefore compiled into every run; other modules reference the models by path. Spec: ITU-T T.81 (Annex C, F.1.2, E.1.4, G.1.2.2);
+# shared executable bit-stream spec: contracts/spec/jpeg_bits.rs.
+#
+# Every harness module of this crate is compiled together; bit_writer.rs / huffman.rs contain generic models
+# of Vec::extend_from_slice / Vec::push (see the comments there) that need `#![feature(allocator_api)]`, so
+# every row (and the canary) carries crate_attrs. NOTE: the attribute is inserted as line 1 of the scratch
+# copy of crates/jxl-jbr/src/lib.rs, so line numbers reported for THAT file are +1 against /repo.
 # ------------------------------------------------------------------------------------------------
 JBW = "crates/jxl-jbr/src/bit_writer.rs"; JBWM = "kani/jxl-jbr/bit_writer.rs"
-CANARIES["jxl-jbr"] = dict(anchor=JBW, module=JBWM, harness="canary", kind="complete", fns=[], timeout=60)
+JHF = "crates/jxl-jbr/src/huffman.rs"; JHFM = "kani/jxl-jbr/huffman.rs"
+JLB = "crates/jxl-jbr/src/lib.rs"; JLBM = "kani/jxl-jbr/lib.rs"
+JSC = "crates/jxl-jbr/src/reconstruct/scan.rs"; JSCM = "kani/jxl-jbr/scan.rs"
+_JB_CRATE_ATTRS = ["#![feature(allocator_api)]"]
+CANARIES["jxl-jbr"] = dict(anchor=JBW, module=JBWM, harness="canary", kind="complete", fns=[], timeout=60,
+                           crate_attrs=_JB_CRATE_ATTRS)
 
-K("jb.has_ff_byte", ["C17", "C01"], "jxl-jbr", JBW, JBWM, "has_ff_byte_contract", "complete", ["has_ff_byte"],
-  "for every u64: has_ff_byte(v) <=> one of the 8 bytes of v equals 0xFF (decides whether the stuffing slow path runs)")
-K("jb.bw_new", ["C17", "C01"], "jxl-jbr", JBW, JBWM, "new_contract", "complete", ["BitWriter::new", "BitWriter::padding_bits"],
-  "new() is well-formed, holds no bits, is byte aligned")
-K("jb.bw_write_huffman", ["C17", "C01"], "jxl-jbr", JBW, JBWM, "write_huffman_contract", "complete",
-  ["BitWriter::write_huffman", "BitWriter::flush_buf", "BitWriter::emit_byte", "has_ff_byte"],
-  "inductive step from ANY well-formed writer state (pending bits 0..63, arbitrary earlier output): requires len <= 63 and a "
-  "left-aligned code word; ensures invariant kept and abs(after) == T.81 reference writer (one bit at a time, MSB first, "
-  "0x00 stuffed after each 0xFF) applied to abs(before) + the code's bits; earlier output untouched")
-K("jb.bw_write_raw", ["C17", "C01"], "jxl-jbr", JBW, JBWM, "write_raw_contract", "complete",
-  ["BitWriter::write_raw", "BitWriter::write_huffman", "BitWriter::flush_buf", "BitWriter::emit_byte"],
-  "inductive step from any well-formed state: requires len <= 63; ensures the low len bits of the value are appended MSB first "
-  "(bits above len ignored), stuffing as T.81 F.1.2.3")
-K("jb.bw_padding_bits", ["C17", "C01"], "jxl-jbr", JBW, JBWM, "padding_bits_contract", "complete", ["BitWriter::padding_bits"],
-  "for any well-formed state: result <= 7 and is exactly the number of bits missing to the next byte boundary of the abstract bit sequence")
-K("jb.bw_finalize", ["C17", "C01"], "jxl-jbr", JBW, JBWM, "finalize_contract", "complete",
-  ["BitWriter::finalize", "BitWriter::emit_byte", "has_ff_byte"],
-  "for any well-formed state: returned bytes == earlier output + pending bits packed MSB first, incomplete last byte completed "
-  "with 0-bits, 0x00 stuffed after each 0xFF (also when the 0xFF is the last byte)")
-K("jb.bw_sequence", ["C17", "C01"], "jxl-jbr", JBW, JBWM, "bitwriter_sequence",
-  "bounded:<= 4 writes (each write_huffman or write_raw, every bits value, every len <= 63)",
-  ["BitWriter::new", "BitWriter::write_huffman", "BitWriter::write_raw", "BitWriter::flush_buf", "BitWriter::padding_bits", "BitWriter::finalize"],
-  "end to end: bytes produced by new(); <= 4 writes; finalize() equal the bytes of the T.81 reference bit writer; padding_bits after every write")
+
+def _J(id, props, anchor, module, harness, kind, fns, contract, **kw):
+    K(id, props, "jxl-jbr", anchor, module, harness, kind, fns, contract, **kw)
+    OBLIGATIONS[-1]["crate_attrs"] = _JB_CRATE_ATTRS
+
+
+_BW_STUBS = (" [emit_byte and Vec::extend_from_slice replaced by capacity-checked no-realloc models, justified by "
+             "jb.emit_byte / jb.emit_byte_model / jb.vec_extend_real / jb.vec_extend_model]")
+
+# ---- bit_writer.rs ------------------------------------------------------------------------------
+_J("jb.has_ff_byte", ["C17", "C01"], JBW, JBWM, "has_ff_byte_contract", "complete", ["has_ff_byte"],
+   "for every u64: has_ff_byte(v) <=> one of the 8 bytes of v equals 0xFF (decides whether the stuffing slow path runs)")
+_J("jb.emit_byte", ["C17", "C01"], JBW, JBWM, "emit_byte_contract", "complete", ["BitWriter::emit_byte"],
+   "T.81 F.1.2.3 for one byte, from any writer state with <= 2 earlier bytes: b is appended, followed by 0x00 iff b == 0xFF; "
+   "earlier output and pending bits untouched")
+_J("jb.emit_byte_model", ["C17"], JBW, JBWM, "emit_byte_model_contract", "complete", ["BitWriter::emit_byte"],
+   "the no-realloc model used as kani::stub for emit_byte satisfies the same deterministic postcondition (=> model == real)")
+_J("jb.vec_extend_real", ["C17"], JBW, JBWM, "extend_real_contract", "complete", ["BitWriter::flush_buf", "BitWriter::finalize"],
+   "Vec::<u8>::extend_from_slice appends exactly the slice (<= 8 bytes) after <= 2 earlier bytes")
+_J("jb.vec_extend_model", ["C17"], JBW, JBWM, "extend_model_contract", "complete", ["BitWriter::flush_buf", "BitWriter::finalize"],
+   "the no-realloc model used as kani::stub for Vec::extend_from_slice satisfies the same postcondition (=> model == real)")
+_J("jb.bw_new", ["C17", "C01"], JBW, JBWM, "new_contract", "complete", ["BitWriter::new", "BitWriter::padding_bits"],
+   "new() is well-formed, holds no bytes and no bits, is byte aligned")
+_J("jb.bw_new_reserved", ["C17"], JBW, JBWM, "new_reserved_contract", "complete", ["BitWriter::new"],
+   "the capacity-reserving stand-in for new() used by the scan.rs obligations equals new() field by field")
+_J("jb.bw_write_huffman", ["C17", "C01"], JBW, JBWM, "write_huffman_contract", "complete",
+   ["BitWriter::write_huffman", "BitWriter::flush_buf", "has_ff_byte"],
+   "inductive step from ANY well-formed writer state (0..63 pending bits, <= 2 arbitrary earlier bytes): requires len <= 63 and a "
+   "left-aligned code word (call sites: len <= 16 from BuiltHuffmanTable::lookup); ensures invariant kept, pending count, earlier "
+   "output untouched, and the bit sequence after == pending bits ++ code bits (MSB first); a completed 64-bit word is appended as "
+   "8 raw bytes with 0x00 stuffed after each 0xFF and nothing else (T.81 F.1.2.3)" + _BW_STUBS)
+_J("jb.bw_write_raw", ["C17", "C01"], JBW, JBWM, "write_raw_contract", "complete",
+   ["BitWriter::write_raw", "BitWriter::write_huffman", "BitWriter::flush_buf"],
+   "same inductive step for additional bits: requires len <= 63 (call sites: <= 16 coefficient bits, <= 14 EOBRUN bits, <= 7 padding, "
+   "<= 63 refinement bits); the low len bits of the value are appended MSB first, bits above len are ignored" + _BW_STUBS)
+_J("jb.bw_padding_bits", ["C17", "C01"], JBW, JBWM, "padding_bits_contract", "complete", ["BitWriter::padding_bits"],
+   "for any well-formed state: result <= 7 and is exactly the number of bits missing to the next byte boundary")
+_J("jb.bw_finalize", ["C17", "C01"], JBW, JBWM, "finalize_contract", "complete",
+   ["BitWriter::finalize", "has_ff_byte"],
+   "for any well-formed state: returned bytes == earlier output + ceil(pending/8) raw bytes holding the pending bits MSB first, "
+   "incomplete last byte completed with 0-bits, 0x00 stuffed after each 0xFF (also a final one), nothing else" + _BW_STUBS)
+_J("jb.bw_sequence2", ["C17", "C01"], JBW, JBWM, "bitwriter_sequence_2",
+   "bounded:<= 2 writes (each write_huffman or write_raw, every bits value, every len <= 63)",
+   ["BitWriter::new", "BitWriter::write_huffman", "BitWriter::write_raw", "BitWriter::flush_buf", "BitWriter::padding_bits", "BitWriter::finalize"],
+   "end to end from new(): bytes of <= 2 writes + finalize == T.81 bit sequence (MSB-first packing, stuffing, 0-fill); "
+   "padding_bits after every write" + _BW_STUBS, timeout=300)
+_J("jb.bw_sequence3", ["C17", "C01"], JBW, JBWM, "bitwriter_sequence_3",
+   "bounded:<= 3 writes (each write_huffman or write_raw, every bits value, every len <= 63)",
+   ["BitWriter::new", "BitWriter::write_huffman", "BitWriter::write_raw", "BitWriter::flush_buf", "BitWriter::padding_bits", "BitWriter::finalize"],
+   "same, <= 3 writes (4 writes did not close in 20 min; any number of writes follows from the inductive step contracts)" + _BW_STUBS,
+   tier="thorough", timeout=1200)
+
+# ---- huffman.rs ---------------------------------------------------------------------------------
+_HF_STUBS = (" [Vec::push and <[u8]>::fill replaced by a capacity-checked no-realloc push / an element-wise loop, "
+             "justified by jb.vec_push_real / jb.vec_push_model]")
+_J("jb.vec_push_real", ["C17"], JBW, JBWM, "push_real_contract", "complete", ["HuffmanCode::build"],
+   "Vec::<u64>::push appends x after <= 3 earlier elements")
+_J("jb.vec_push_model", ["C17"], JBW, JBWM, "push_model_contract", "complete", ["HuffmanCode::build"],
+   "the no-realloc model used as kani::stub for Vec::push satisfies the same postcondition (=> model == real)")
+for _n, _tier, _to in ((2, "quick", 300), (3, "thorough", 1200), (4, "thorough", 1200), (5, "thorough", 1200)):
+    _J("jb.huff_build_spec_n%d" % _n, ["C17"], JHF, JHFM, "build_matches_annex_c_%d" % _n,
+       "bounded:exactly %d values (%d symbols + sentinel); every counts[1..=16] with that sum, every symbol value" % (_n, _n - 1),
+       ["HuffmanCode::build", "HuffmanCode::encoded_len", "BuiltHuffmanTable::lookup"],
+       "requires an encoder-produced table (>= 1 symbol + the sentinel, counts[0] == 0); ensures for EVERY symbol value v: "
+       "length == EHUFSI(v), code == EHUFCO(v) of T.81 Annex C (Figures C.1-C.3, transcribed), left-aligned in 64 bits with nothing "
+       "below; no code -> (0, 0); lookup(v) == Ok((len, bits)) / Err(HuffmanLookup); encoded_len == 1 + 16 + symbols" + _HF_STUBS,
+       tier=_tier, timeout=_to)
+for _n, _what in ((0, "all counts zero, no value"), (1, "the sentinel only"), (2, "two values (one may have code length 0)")):
+    _J("jb.huff_build_total_n%d" % _n, ["C01", "C17"], JHF, JHFM, "build_total_%d" % _n,
+       "bounded:exactly %d values; every counts[0..=16] with that sum (the parser validates nothing else: huffman.rs:65-92)" % _n,
+       ["HuffmanCode::build", "HuffmanCode::encoded_len", "BuiltHuffmanTable::lookup"],
+       "panic-freedom of build / encoded_len / lookup on everything HuffmanCode::parse can return with %s" % _what + _HF_STUBS,
+       timeout=300)
+for _w, _what in (("a", "38 zero bits: counts all 0, no values"), ("b", "counts[1] = 1: sentinel only"),
+                  ("c", "counts[0] = counts[1] = 1: a zero-length code + sentinel")):
+    _J("jb.huff_parse_build_%s" % _w, ["C01", "C17"], JHF, JHFM, "parse_build_witness_%s" % _w,
+       "bounded:one concrete 6-byte jbrd Huffman bundle (%s)" % _what,
+       ["HuffmanCode::parse", "HuffmanCode::build", "HuffmanCode::encoded_len"],
+       "the REAL parser on a concrete bundle, then what the DHT writer does with the result (reconstruct.rs:461-483): "
+       "values non-empty (it slices values[..len-1]), encoded_len, build -- none may panic; a parser that rejects the bundle also satisfies it"
+       + _HF_STUBS, timeout=300)
+
+# ---- lib.rs -------------------------------------------------------------------------------------
+_J("jb.app_marker_parse", ["C17", "C01"], JLB, JLBM, "app_marker_parse_contract", "complete", ["AppMarker::parse"],
+   "for every input of 0..=3 bytes: Ok iff the bundle is complete; ty == U32(0, 1, 2+u(1), 4+u(2)) in 0..=7, length == u(16)+1 in "
+   "1..=65536, exactly those bits consumed; Err is unexpected-eof; covers show every (ty, length) combination is admitted, e.g. (1, 1), (7, 65536)")
+_J("jb.expected_lens_total", ["C01", "C17"], JLB, JLBM, "expected_lens_total",
+   "bounded:<= 2 APPn entries, both produced by the real AppMarker::parse from 5 symbolic bytes (complete over ty and length)",
+   ["JpegBitstreamHeader::expected_icc_len", "JpegBitstreamHeader::expected_exif_len", "JpegBitstreamHeader::expected_xmp_len",
+    "JpegBitstreamHeader::expected_data_len", "AppMarker::parse"],
+   "no panic (no subtraction underflow) for whatever the parser returned; where the entries describe real segments: icc == sum(length - 17), "
+   "exif == length - 9 and xmp == length - 32 of the first such entry (0 if none), data == verbatim APPn bytes + tail")
+_J("jb.expected_data_len", ["C17", "C01"], JLB, JLBM, "expected_data_len_contract",
+   "bounded:exactly 2 APPn + 2 COM + 2 inter-marker entries (complete over their parser ranges and the tail length)",
+   ["JpegBitstreamHeader::expected_data_len", "JpegBitstreamHeader::app_data_len", "JpegBitstreamHeader::com_data_len",
+    "JpegBitstreamHeader::intermarker_data_len"],
+   "expected_data_len == sum of type-0 APPn lengths + COM lengths (1..=65536) + inter-marker lengths (0..=65535) + tail (<= 65793 + 2^22 - 1), "
+   "no overflow; the three section offsets used by the reconstructor add up to it")
+_J("jb.expected_data_len_empty", ["C17", "C01"], JLB, JLBM, "expected_data_len_empty", "complete",
+   ["JpegBitstreamHeader::expected_data_len"], "no APPn/COM/inter-marker entries: expected_data_len == tail_data_length")
+_J("jb.app_marker_type_known", ["C01", "C17"], JLB, JLBM, "app_marker_type_known", "complete", ["AppMarker::parse"],
+   "consumer precondition: the APPn writer (reconstruct.rs:699-757) matches ty 0..=3 and has `_ => unreachable!()`; the parser must "
+   "therefore never return ty > 3 (for every 3-byte input)")
+
+# ---- reconstruct/scan.rs ------------------------------------------------------------------------
+_SC_STUBS = (" [BitWriter::new / emit_byte / Vec::extend_from_slice replaced by the models justified by jb.bw_new_reserved, "
+             "jb.emit_byte(+_model), jb.vec_extend_real/_model]")
+_J("jb.update_dc_pred", ["C17", "C01"], JSC, JSCM, "update_dc_pred_contract", "complete", ["ScanState::update_dc_pred"],
+   "DIFF = DC - PRED (wrapping, never panics), PRED := DC for that component only (T.81 F.1.1.5.1)")
+_J("jb.flush_ones", ["C17", "C01"], JSC, JSCM, "flush_ones_contract",
+   "bounded:<= 24 pending bits in the scan's writer (every value)",
+   ["ScanState::flush_bit_writer", "ScanState::emit_eobrun", "BitWriter::padding_bits", "BitWriter::write_raw", "BitWriter::finalize"],
+   "no padding stream: the sink receives the segment's bits unchanged, completed to a byte boundary with 1-bits (T.81 F.1.2.3), stuffed; "
+   "the scan continues with an empty byte-aligned writer" + _SC_STUBS)
+_J("jb.flush_padding_stream", ["C17", "C01"], JSC, JSCM, "flush_padding_stream_contract",
+   "bounded:<= 15 pending bits, fresh 2-byte padding stream (every value)",
+   ["ScanState::flush_bit_writer", "BitWriter::padding_bits", "BitWriter::write_raw", "BitWriter::finalize"],
+   "with a padding stream: exactly padding_bits() bits are consumed from it and the emitted padding consists of those bits "
+   "(order-insensitive part); segment bits unchanged" + _SC_STUBS, timeout=600)
+_J("jb.flush_padding_order", ["C17"], JSC, JSCM, "flush_padding_order_contract",
+   "bounded:<= 15 pending bits, fresh 2-byte padding stream (every value)",
+   ["ScanState::flush_bit_writer"],
+   "padding bits are emitted in the order in which the reconstruction data lists them (jbrd padding_bits are one bit per entry in "
+   "stream order; libjxl's writer shifts them in first-to-last, MSB first)" + _SC_STUBS, timeout=600)
+_J("jb.restart", ["C17", "C01"], JSC, JSCM, "restart_contract",
+   "bounded:<= 15 pending bits (every value), every rst_m in 0..=7, 3 components",
+   ["ScanState::restart", "ScanState::flush_bit_writer"],
+   "sink receives the 1-padded stuffed segment followed by FF D0+m; m := (m+1) mod 8 (T.81 E.1.4); all DC predictions := 0 (F.1.1.5.1)"
+   + _SC_STUBS)
+_J("jb.emit_eobrun", ["C17", "C01"], JSC, JSCM, "emit_eobrun_contract",
+   "bounded:one concrete 4-bit code table (symbol n<<4 -> code n, built by the real build()); every EOBRUN 0..=32767; <= 1 buffered correction-bit entry of <= 10 bits",
+   ["ScanState::emit_eobrun", "BuiltHuffmanTable::lookup", "BitWriter::write_huffman", "BitWriter::write_raw"],
+   "T.81 G.1.2.2 Encode_EOBRUN: EOBRUN == 0 -> nothing; else code of symbol (SSSS << 4) with SSSS = floor(log2 EOBRUN), then the SSSS "
+   "low-order bits of EOBRUN, then the buffered correction bits (G.1.2.3); run and buffers reset" + _SC_STUBS + _HF_STUBS, tier="thorough", timeout=1200)
